@@ -94,10 +94,6 @@ func TestFirstUse(t *testing.T) {
 	rec := kit.NewRecorder(env, "firstuse-"+tn)
 	defer func() { rec.Flush(!t.Failed()) }()
 	const C, F, G = 2, 64, 8
-	shared := kit.AllocAny(tn, signal.Allocator{Channels: C, Length: F, Capacity: F})
-	for i := 0; i < shared.Len(); i++ {
-		shared.Set(i, kit.IV(int64(1+i%100)))
-	}
 	var partners []string
 	for _, e := range convtab.Entries {
 		if e.S.Name == tn {
@@ -105,6 +101,7 @@ func TestFirstUse(t *testing.T) {
 		}
 	}
 	c := &Case{T: tn, C: C, F: F, RO: F, Bounds: []int{F}, Procs: 16, Repeat: 1}
+	shared := fill(c) // Alloc + SetSample only: no conversion or other entry point has run in this process yet
 	results := make([][]string, G)
 	start := make(chan struct{})
 	var wg sync.WaitGroup
